@@ -7,6 +7,9 @@
 //! outcome b: 0 ok | 1 ok classified as failure | 2 err | 3 err classified as success
 //!            | 5 ok on which the failure classifier panics | anything else: the inner call panics
 //! min_calls < 0 = minimum_number_of_calls is not set (builder default: the window size)
+//! first field = time_based + 2*unit_us: with unit_us = 1 wait_open, window duration, slow threshold and
+//! Advance are in microseconds (the clock then jumps by the whole amount in one step: the breaker reads
+//! std::time::Instant only, no timer is involved)
 //! trace per event = [r, started (number of inner calls started by this event), state, state_sync,
 //!                    metrics.state, total, failures, successes, slow, in-flight, wake mask]
 //! Handles: callers are clones of `base` (the service, with its fallback when configured); the
@@ -33,6 +36,7 @@ fn code(s: CircuitState) -> i128 {
 
 macro_rules! drive {
     ($svc:expr, $ctl:expr, $s:expr, $n:expr, $sh:expr) => {{
+        let unit_us = (zn($s, 0).max(0) >> 1) & 1 != 0;
         let base = $svc;
         let ctl = $ctl;
         let s: &[i128] = $s;
@@ -81,7 +85,15 @@ macro_rules! drive {
                         m.flag.0.store(false, std::sync::atomic::Ordering::SeqCst);
                     }
                 }
-                3 => advance_ms(a.max(0) as u64).await,
+                3 => {
+                    if unit_us {
+                        let us = a.clamp(0, 1_000_000_000_000) as u64;
+                        VIRT_NS.fetch_add(us * 1000, std::sync::atomic::Ordering::SeqCst);
+                        tokio::time::advance(Duration::from_micros(us)).await;
+                    } else {
+                        advance_ms(a.max(0) as u64).await
+                    }
+                }
                 4 => {
                     if a < 0 || a as usize >= n { continue; }
                     sh.complete(a, 0, match b { 0 => Outcome::Ok(0), 1 => Outcome::Ok(1), 2 => Outcome::Err(2), 3 => Outcome::Err(3), 5 => Outcome::Ok(5), _ => Outcome::Panic });
@@ -114,23 +126,27 @@ fn run(s: &[i128]) -> Vec<i128> {
     let n = zn(s, 13) as usize;
     let rt = paused_rt();
     let sv: Vec<i128> = s.to_vec();
+    let unit_us = (zn(s, 0).max(0) >> 1) & 1 != 0;
+    let unit = move |v: i128| -> Duration {
+        if unit_us { Duration::from_micros(v.max(0) as u64) } else { Duration::from_millis(v.max(0) as u64) }
+    };
     rt.block_on(async move {
         let s = &sv[..];
         let inner = GatedInner::new();
         let sh = inner.0.clone();
         let mut b = CircuitBreakerLayer::builder()
-            .sliding_window_type(if zn(s, 0) != 0 { SlidingWindowType::TimeBased } else { SlidingWindowType::CountBased })
+            .sliding_window_type(if zn(s, 0) & 1 != 0 { SlidingWindowType::TimeBased } else { SlidingWindowType::CountBased })
             .sliding_window_size(zn(s, 1).max(0) as usize)
-            .sliding_window_duration(Duration::from_millis(zn(s, 2).max(0) as u64))
+            .sliding_window_duration(unit(zn(s, 2)))
             .failure_rate_threshold(zn(s, 4) as f64 / zn(s, 5) as f64)
             .slow_call_rate_threshold(zn(s, 8) as f64 / zn(s, 9) as f64)
-            .wait_duration_in_open(if zn(s, 10) >= 1_000_000_000_000_000 { Duration::MAX } else { Duration::from_millis(zn(s, 10).max(0) as u64) })
+            .wait_duration_in_open(if zn(s, 10) >= 1_000_000_000_000_000 { Duration::MAX } else { unit(zn(s, 10)) })
             .permitted_calls_in_half_open(zn(s, 11).max(0) as usize);
         if zn(s, 3) >= 0 {
             b = b.minimum_number_of_calls(zn(s, 3) as usize);
         }
         if zn(s, 6) != 0 {
-            b = b.slow_call_duration_threshold(Duration::from_millis(zn(s, 7).max(0) as u64));
+            b = b.slow_call_duration_threshold(unit(zn(s, 7)));
         }
         let layer = b
             .failure_classifier(|r: &Result<i128, i128>| match r {
